@@ -483,6 +483,48 @@ func generate(cfg *hx.Config) []hx.Case {
 			cfg.Count("origin=fault-after-reading-request")
 		}
 	}
+	// CUMULATIVE volume on one connection: many multi-megabyte bodies, upload and
+	// download (bodies are (length, seed) in the token and compared by digest)
+	vol := func(name string, sizes []int, up bool) {
+		r := rng.Fork()
+		var exs []*exch
+		for i, sz := range sizes {
+			e := genExchange(r, genOpt{}, false)
+			for e.Method == "HEAD" {
+				e = genExchange(r, genOpt{}, false)
+			}
+			e.V10, e.SV10, e.Gz, e.Rd, e.Fault = false, false, false, -1, -1
+			e.Hdrs, e.SHdrs = stripConn(e.Hdrs), stripConn(e.SHdrs)
+			if e.Status == 204 || e.Status == 304 {
+				e.Status = 200
+			}
+			if up {
+				e.Method, e.BLen, e.RqF = pick(r, "POST", "PUT"), sz, []string{"c", fmt.Sprintf("k%d", r.Intn(1<<30))}[i%2]
+				e.SBLen, e.RsF = r.Range(0, 2000), "c"
+			} else {
+				e.Method, e.BLen, e.RqF = "GET", 0, "n"
+				e.SBLen, e.RsF = sz, []string{"c", fmt.Sprintf("k%d", r.Intn(1<<30))}[i%2]
+			}
+			exs = append(exs, e)
+		}
+		cases = append(cases, caseOf(name, "seq", exs))
+		cfg.Count("volume-per-connection=" + map[bool]string{true: "upload", false: "download"}[up])
+	}
+	mib := 1 << 20
+	vol("volume-up-70MiB", []int{10 * mib, 10 * mib, 10 * mib, 10 * mib, 10 * mib, 10 * mib, 10 * mib}, true)
+	vol("volume-down-70MiB", []int{10 * mib, 10 * mib, 10 * mib, 10 * mib, 10 * mib, 10 * mib, 10 * mib}, false)
+	if cfg.Thorough() {
+		// totals that straddle 2^24, 2^25, 2^26: the boundary falls inside a body, exactly between two, one byte either side
+		for p := 24; p <= 26; p++ {
+			t := 1 << uint(p)
+			for _, up := range []bool{true, false} {
+				vol(fmt.Sprintf("volume-2^%d-inside-%v", p, up), []int{t / 3, t / 3, t / 3, t / 3, 1000}, up)
+				vol(fmt.Sprintf("volume-2^%d-exact-%v", p, up), []int{t / 2, t / 2, 1000, t / 2}, up)
+				vol(fmt.Sprintf("volume-2^%d-minus1-%v", p, up), []int{t / 2, t/2 - 1, 1, 1000}, up)
+				vol(fmt.Sprintf("volume-2^%d-plus1-%v", p, up), []int{t / 2, t/2 + 1, 1000}, up)
+			}
+		}
+	}
 	// SIZE of the heads: one long value / many lines, both directions
 	kb := 0
 	sizes := []int{3000, 5000, 60000, 300000}
